@@ -6,6 +6,7 @@ mod e_builder;
 mod e_client;
 mod e_codec;
 mod e_convert;
+mod e_handler;
 mod e_hasher;
 mod e_incoming;
 mod e_prefix;
@@ -38,6 +39,8 @@ fn main() {
         "codec" => e_codec::run(seed, n, tier),
         "server" => e_server::run(seed, n, tier),
         "client" => e_client::run(seed, n, tier),
+        "handler" => e_handler::run_client(seed, n, tier),
+        "srvhandler" => e_handler::run_server(seed, n, tier),
         "wantlist" => e_wantlist::run(seed, n, tier),
         "decodeserver" => e_codec::decode_server(),
         "incoming" => e_incoming::run(seed, n, tier),
